@@ -10,7 +10,8 @@ C10 driver.  case (see harness/src/bin/c10.rs):
       delimiter-separated rule, `inst` + `delim`; otherwise no claim: the model's bit), and ONE outcome, the
       simultaneous longest-match substitution `subst` with the instantiation's values (the model's captures when there is
       no usable instantiation);
-"sig" = class of a disagreement between m and s (which hypothesis of the theorems fails).
+"sig" = class of a disagreement between m and s: `header-unanchored` (the one known finding), else an unlisted sig
+        (`match-bit`, `capture`, `substitution`) = violation.
 -/
 import Drivers.Common
 import RioModel.Model.MarkerSpec
@@ -111,23 +112,8 @@ def outcomeKey (o : Outcome) : String :=
 def sortOutcomes (os : List Outcome) : List Outcome :=
   (os.toArray.qsort fun a b => outcomeKey a < outcomeKey b).toList
 
-/-- Replace every `@` of the values by a private-use char that occurs nowhere else: the values can then not be
-substituted again, everything else is unchanged. -/
-def neutralise (vs : List (Str × Str)) : List (Str × Str) :=
-  vs.map fun p => (p.1, p.2.map fun c => if c = '@' then Char.ofNat 0xE000 else c)
-
-/-- Why do the sequential and the simultaneous substitution differ on these templates?  `value-contains-at`: they
-agree once the `@`s of the values are neutralised; `join`: they still differ and the no-join condition is violated
-(with neutralised values); anything else would contradict the theorem `substitution`. -/
-def substCause (vs : List (Str × Str)) (ts : List Str) : String :=
-  let vs' := neutralise vs
-  if !namesNoAt vs then "name-contains-at"
-  else if ts.all (fun t => replaceVars t (sortVars vs') == subst vs' t) then
-    (if !valuesNoAt vs then "value-contains-at" else "substitution-unexplained")
-  else if !(ts.all fun t => noJoin vs' t) then "join"
-  else "substitution-unexplained"
-
-/-- `{"kind":"sub","vars":[[n,v]..],"ts":[..]}`: sort + sequential replace vs simultaneous substitution. -/
+/-- `{"kind":"sub","vars":[[n,v]..],"ts":[..]}`: sort + one-pass replace vs the simultaneous substitution (no exclusions:
+`substitution` has no hypotheses; any difference is a violation). -/
 def handleSub (j : Json) : Except String Json := do
   let vs ← pairList j "vars"
   if vs.isEmpty then throw "no variables"
@@ -135,17 +121,13 @@ def handleSub (j : Json) : Except String Json := do
   let sorted := sortVars vs
   let jv (l : List (Str × Str)) : Json := Json.arr (l.map fun p => Json.arr #[toJson (S p.1), toJson (S p.2)]).toArray
   let m := Json.mkObj [("vars", jv sorted), ("outs", toJson (ts.map fun t => S (replaceVars t sorted)))]
-  -- names containing `@` are outside the property's quantifier: no claim
-  let spec (t : Str) : Str := if namesNoAt vs then subst vs t else replaceVars t sorted
-  let s := Json.mkObj [("vars", jv sorted), ("outs", toJson (ts.map fun t => S (spec t)))]
-  let differs := ts.any fun t => replaceVars t sorted != spec t
-  let sig : Option String := if !differs then none else some (substCause vs ts)
+  let s := Json.mkObj [("vars", jv sorted), ("outs", toJson (ts.map fun t => S (subst vs t)))]
   let tags : List String :=
+    (if !(ts.all fun t => replaceSeq t sorted == subst vs t) then ["old-sequential-code-differs"] else []) ++
     (if !(ts.all fun t => noJoin vs t) then ["hyp:join-violated"] else []) ++
     (if !valuesNoAt vs then ["hyp:value-at"] else []) ++
     (if !(ts.all fun t => noStrayAt vs t) then ["stray-at"] else [])
-  return Json.mkObj ([("m", m), ("s", s), ("tags", toJson tags)] ++
-    (match sig with | some g => [("sig", toJson g)] | none => []))
+  return Json.mkObj [("m", m), ("s", s), ("sig", "substitution"), ("tags", toJson tags)]
 
 /-- All decompositions of `s` along `ts` (`acc re v` = `v` is accepted by the expression, `ceq` = literal comparison). -/
 def decompAll (acc : Str → Str → Bool) (ceq : Char → Char → Bool) : List Tok → Str → List (List (Str × Str))
@@ -257,10 +239,7 @@ def handle (j : Json) : Except String Json := do
   let acc : Bool → Str → Str → Bool := fun ic re v => E.full ic (groupRegex re) v
   let sMatch := if usable then rule.instAccepted acc cf cfg inst else matched
   let sCaptured := if usable then rule.instCaptured cf cfg inst else captured
-  -- variable names containing `@` are outside the property's quantifier: no claim about the substitution then
-  let plainNames := namesNoAt (rule.variablesUnsorted cf sCaptured q)
-  let sOut := if plainNames then rule.outcomeSpec cf probe sCaptured q
-              else rule.outcome cf probe sCaptured q
+  let sOut := rule.outcomeSpec cf probe sCaptured q
   let s := if sMatch then Json.mkObj [("match", true), ("outs", Json.arr #[jOutcome sOut])]
            else Json.mkObj [("match", false)]
   -- classification of a disagreement
@@ -281,10 +260,11 @@ def handle (j : Json) : Except String Json := do
     else if !matched then none
     else if outs == [sOut] then none
     else if !sameCaps then some "capture"
-    else some (substCause vsM templates)
+    else some "substitution"
   let tags : List String :=
     (if usable then ["inst:usable"] else if hasInst then ["inst:unusable"] else ["inst:none"]) ++
     (if matched then [s!"captured:{captured.length}"] else []) ++
+    (if matched && !(templates.all fun t => replaceSeq t (sortVars vsM) == subst vsM t) then ["old-sequential-code-differs"] else []) ++
     (if matched && !(templates.all fun t => noJoin vsM t) then ["hyp:join-violated"] else []) ++
     (if matched && !valuesNoAt vsM then ["hyp:value-at"] else []) ++
     (if matched && !(templates.all fun t => noStrayAt vsM t) then ["stray-at"] else []) ++
